@@ -11,16 +11,18 @@ CHECKS = {
     "C13": ("stateless deviation-bounded schedule exploration of the real BacktestingDispatcher on a virtual event loop, "
             "over every job-time tuple / insertion order on a grid",
             "Every execution of the real dispatcher for every tuple of <=3 (quick) / <=4 (thorough) job times over a grid "
-            "of past/between/equal/beyond-last-event times in every insertion order, scheduled up front, from handlers "
-            "and from jobs, max_concurrent 1..2, every handler/job suspension pattern within the deviation bound; the "
-            "exactly-once / on-time / ordering oracle is evaluated on every execution.",
+            "of past/between/equal/beyond-last-event times incl. sub-second times sharing a second, in every insertion order, "
+            "scheduled up front, from handlers and from jobs, one or two event sources (ties across sources), job times "
+            "expressed in time zones west/east of UTC, max_concurrent 1..2, every handler/job suspension pattern within the "
+            "deviation bound; the exactly-once / on-time / ordering oracle is evaluated on every execution.",
             "Bounded: grid times, <=4 jobs, one event source, deviation bound 1 (quick) / 2 (thorough). CPython's FIFO "
             "ready order is taken as is.", "DESIGN.md section 4, C13"),
     "C12": ("stateless deviation-bounded schedule exploration of the real BacktestingDispatcher on a virtual event loop, "
             "over every timestamp pattern of 2-3 sources on a 3-value grid",
             "Every execution of the real dispatcher for every non-decreasing timestamp sequence per source on {1,2,3} "
             "(ties within and across sources), max_concurrent 1/2/50, with/without catch-all handlers, derived-source "
-            "pushes (now / later), a raising handler, duplicate subscriptions and a past-dated job, and every handler "
+            "pushes (now / later), a raising handler, duplicate subscriptions (plain functions and equal-but-not-identical bound "
+            "methods), a past-dated job, sources with a backlog of 70-200 events, and every handler "
             "suspension pattern (0/1/2 yields, external gate, all gate release orders) within the deviation bound; "
             "exactly-once, global time order, stage order, subscription order and clock oracles on every execution.",
             "Bounded: timestamps on a 3-value grid, <=3 sources, <=3 events per source, deviation bound 1 (quick) / 2 "
@@ -31,7 +33,7 @@ CHECKS = {
             "modes (initialize / main at once / main later / main returns / finalize), exit path (exhausted, stop from "
             "handler, handler error with stop-on-error, stop or cancel injected at each loop step in turn; thorough: "
             "pairs of injections), max_concurrent 1..3, due jobs + due events + idle handlers competing for the pool, "
-            "short and 500 s handlers, log level WARNING/DEBUG; oracle on producer call trace, outcome class, "
+            "short and 500 s handlers, log level WARNING/DEBUG, double cancellation; oracle on producer call trace, outcome class, "
             "promptness in virtual time, in-flight count, fault isolation counts and the process-wide log record factory.",
             "Bounded: 2 (quick) / 3 (thorough) producers, injection within the first 400/600 loop steps, one injection "
             "(thorough: two). Loop-step granularity; CPython FIFO ready order.", "DESIGN.md section 4, C14"),
@@ -39,7 +41,8 @@ CHECKS = {
             "durations chosen by a stateless explorer",
             "Every arrival pattern of <=3 (quick) / <=4 (thorough) events on 2 sources (arrival instant x timestamp "
             "past/now/future, hence out-of-order chains), job sets (past/now/future), max_concurrent 1/2/50, 0-2 idle "
-            "handlers and every assignment of handler durations {0, 0.5, 3.5 poll periods}; oracle: never early, "
+            "handlers, job times / event timestamps expressed in time zones west and east of UTC, and every assignment of handler "
+            "durations {0, 0.5, 3.5 poll periods}; oracle: never early, "
             "bounded liveness, per-source order, out-of-order events dropped and reported, idle handlers only when idle.",
             "Bounded: arrival/timestamp grid, <=4 arrivals, virtual horizon 0.3 s (30 poll periods); virtual clock "
             "replaces utc_now and loop time.", "DESIGN.md section 4, C15"),
@@ -48,9 +51,10 @@ CHECKS = {
             "Every scenario of 2-3 (quick) / 2-4 (thorough) pairs x shared/staggered timestamps x one source per pair or "
             "one merged source x strategy subscribed before/after the bar sources x strategy path (bar subscription, "
             "trading signal, order event) x passive second subscribers x single or fund-competing double placements x "
-            "market/limit: clause 1 on every handler suspension pattern within the deviation bound for max_concurrent "
+            "market/limit/limit-then-cancel: clause 1 on every handler suspension pattern within the deviation bound for max_concurrent "
             "1/2/3/50; clause 2 by comparing fill history, placements, rejections and balances across max_concurrent, "
-            "across two runs, and across child processes with other PYTHONHASHSEED values.",
+            "across two runs, across child processes with other PYTHONHASHSEED values, and - on lending histories with equal loans "
+            "and partially affordable auto-repay orders - across three id schemes whose ORDER differs.",
             "Bounded: flat prices, 1-unit orders, <=4 pairs, 3 bars per pair, deviation bound 1 (quick) / 2 (thorough); "
             "2 (quick) / 4 (thorough) extra hash seeds.", "DESIGN.md section 4, C03"),
 }
@@ -58,8 +62,8 @@ CHECKS = {
 _EX_TECH = ("explicit-state breadth-first search over operation histories of the real backtesting Exchange (state = "
             "canonical key, de-duplicated; every transition replayed on a fresh real exchange), with lasso histories "
             "for long runs and a conformance replay of the fast driver against the public-API driver")
-_EX_NOTE = ("Bounded: amounts 1..5 units, price grid {30,90,100,110,300}, volumes giving 1/2.5/2.75/10 units of liquidity, "
-            "configurations K0..K14 (fee x liquidity x lending x precision x balances x 1-2 pairs), depth 3-4 (quick) / "
+_EX_NOTE = ("Bounded: amounts 1..5 units, price grid {30,33.37,90,100,110,300}, volumes giving 0/1/2.5/2.75/4/10 units of liquidity, "
+            "configurations K0..K21 (fee x liquidity x lending x precision x balances x 1-2 pairs), depth 3-4 (quick) / "
             "4-5 (thorough), lassos up to 240 steps. The synchronous driver (bars delivered by calling the exchange's "
             "bar handler directly) is trusted only as far as the conformance scenarios and the per-violation public-API "
             "replay validate it.")
@@ -93,7 +97,7 @@ CHECKS.update({
     "C11": _ex("Loan oracle on every transition (exact-rational interest formula truncated to precision, repay debits "
                "principal + interest, closed/unknown loans cannot be repaid, who may close a loan), plus an interest "
                "grid (percentages x periods x minimums x interest symbols x precisions x principals x price paths x ages "
-               "0..12) and a differential decision of largest-first repayment (auto-repay order vs explicit repayments in "
+               "0..12, daily and sub-second steps), repayments retried after a refusal, and a differential decision of largest-first repayment (auto-repay order vs explicit repayments in "
                "descending principal, all tie orders)."),
 })
 
